@@ -396,6 +396,8 @@ Section Univ.
   Notation step := (step N mf succs subj sk true true true).
   Notation run := (run N mf succs subj sk true true true).
   Notation obs_equiv := (obs_equiv N succs dflt).
+  Notation wf_op := (wf_op mf).
+  Notation wf_history := (wf_history mf).
 
   Lemma fold_visit_mono f p (IH : forall c g x, In x g -> In x (visit f p c g)) :
     forall l g x, In x g -> In x (fold_left (fun acc c => visit f p c acc) l g).
@@ -989,6 +991,14 @@ Section Univ.
     - destruct G as [H S]. split; [exact H|]. intros _. unfold Synced, idx. simpl. apply save_diskok. apply H.
     - destruct R as [A|R]; [|congruence]. destruct G as [H S].
       destruct (reopen_good s H (S A)) as [H' S']. split; auto.
+    - destruct (mem k (blobs s)); [exact G|]. simpl.
+      apply (good_same cfg s); [exact G| |reflexivity|reflexivity].
+      destruct G as [H _]. unfold Inv, idx in *. simpl. split.
+      + apply H.
+      + intros r d L. right. eapply inv_i4; eauto.
+      + intros k' Mk [<-|I]; [congruence|]. eapply inv_k; eauto.
+      + intros k' Mk I. right. eapply inv_g2a; eauto.
+      + intros k' Mk [<-|I]; [congruence|]. eapply inv_g2b; eauto.
   Qed.
 
   Lemma run_good cfg h : forall s,
@@ -1024,6 +1034,9 @@ Section Univ.
     assert (Eb : blobs (reopen s) = blobs s) by reflexivity.
     split.
     - unfold obs_tags. apply filter_ext. intro t. rewrite Ei, (reload_tag _ _ S).
+      destruct (lookup (RTag t) (r_index (res s))); reflexivity.
+    - intro f. unfold obs_tags_from. f_equal.
+      unfold obs_tags. apply filter_ext. intro t. rewrite Ei, (reload_tag _ _ S).
       destruct (lookup (RTag t) (r_index (res s))); reflexivity.
     - intro t. unfold obs_resolve_tag. rewrite Ei, (reload_tag _ _ S).
       destruct (lookup (RTag t) (r_index (res s))) as [d|]; simpl; auto.
@@ -1151,7 +1164,7 @@ Definition ex_plain_hist (l : list op) : list (op * orders) := map (fun o => (o,
 Lemma refuted_gc_not_saved :
   exists (N : nat) (mf : nat -> bool) (succs : nat -> list nat) (subj : nat -> option nat)
          (sk dflt : nat -> bool) (cfg : config) (h : list (op * orders)),
-    autosave cfg = true /\ wf_history h /\
+    autosave cfg = true /\ wf_history mf h /\
     let s := run N mf succs subj sk false true true cfg h store_empty in
     obs_resolve_dig dflt (reopen N mf succs s) 0 <> obs_resolve_dig dflt s 0 /\ disk_valid s = false.
 Proof.
@@ -1168,7 +1181,7 @@ Definition ex_succs (k : nat) := match k with 1 => [0] | 2 => [1] | _ => [] end.
 Lemma refuted_gc_drops_digest_ref :
   exists (N : nat) (mf : nat -> bool) (succs : nat -> list nat) (subj : nat -> option nat)
          (sk dflt : nat -> bool) (cfg : config) (h : list (op * orders)),
-    autosave cfg = true /\ wf_history h /\ (forall k, mf k = false -> succs k = []) /\
+    autosave cfg = true /\ wf_history mf h /\ (forall k, mf k = false -> succs k = []) /\
     let s := run N mf succs subj sk true false true cfg h store_empty in
     obs_preds N succs (reopen N mf succs s) 0 <> obs_preds N succs s 0.
 Proof.
@@ -1189,7 +1202,7 @@ Definition ex_hist : list (op * orders) :=
     (OUntag (RTag 1), mkOrd [3;1] [0;2] [] [] []); (OGC, mkOrd [] [1] [2;1] [[1;1;0]; [2]] []);
     (ODelete 2, mkOrd [1] [] [] [] [([1], [2;0])]); (OReopen, ord0); (OPush 2, ord0) ].
 Lemma example_history :
-  wf_history ex_hist /\ (forall k, ex_mf k = false -> ex_succs k = []) /\
+  wf_history ex_mf ex_hist /\ (forall k, ex_mf k = false -> ex_succs k = []) /\
   let s := run 3 ex_mf ex_succs (fun _ => None) (fun _ => true) true true true ex_cfg ex_hist store_empty in
   obs_tags 3 s = [0] /\ obs_resolve_tag s 0 = Some (mkDesc 1 2 (Some (RTag 0))) /\
   obs_preds 3 ex_succs s 1 = [2] /\ obs_preds 3 ex_succs s 0 = [1] /\
@@ -1208,7 +1221,7 @@ Proof. vm_compute. split; reflexivity. Qed.
 (* a tag name that is the digest string of another node breaks J2 and the
    equivalence: why [wf_history] is needed *)
 Lemma inconsistent_reference_example :
-  exists h, ~ wf_history h /\
+  exists h, ~ wf_history (fun _ => true) h /\
     let s := run 2 (fun _ => true) (fun _ => []) (fun _ => None) (fun _ => true) true true true ex_cfg h store_empty in
     obs_resolve_dig (fun _ => false) (reopen 2 (fun _ => true) (fun _ => []) s) 1 <> obs_resolve_dig (fun _ => false) s 1.
 Proof.
